@@ -93,7 +93,7 @@ var Props = []PropInfo{
 		NotDecided:  "the WebSocket library; frame-level behaviour.",
 		Assumptions: trust("coder/websocket Read/Write semantics")},
 	{ID: "C13",
-		Explanation: "Structural necessary conditions of termination/release: every channel operation in the three library packages is discharged by a cancel-aware select, a bounded-buffer argument, a token channel, a join on own goroutines, or range-after-close (CHAN-DISC); goroutines defer cancel (GO-CANCEL); for-loops in session code can leave on ctx.Done (LOOP-EXIT); context-taking calls receive a context derived from the caller's (CTX-PASS); a deferred join is preceded (in run order) by a cancel (JOIN-ORDER); inbound receives are comma-ok and return on close (RECV-OK); child inbound channels are closed by their sender (CHILD-CLOSE); UnsubscribeAll and ServeNostrEnd are deferred (UNSUB-ALL, START-END); every WebSocket write/ping without deadline is controlled by SendTimeout only (WS-DEADLINE).",
+		Explanation: "Structural necessary conditions of termination/release: every channel operation in the three library packages is discharged by a cancel-aware select, a bounded-buffer argument, a token channel, a join on own goroutines, or range-after-close (CHAN-DISC); goroutines defer cancel (GO-CANCEL); for-loops in session code can leave on ctx.Done (LOOP-EXIT); context-taking calls receive a context derived from the caller's (CTX-PASS), and the goroutines of a function that cancels its own derived context on return block only under that context (GO-CTX); a deferred join is preceded (in run order) by a cancel (JOIN-ORDER); inbound receives are comma-ok and return on close (RECV-OK); child inbound channels are closed by their sender (CHILD-CLOSE); UnsubscribeAll and ServeNostrEnd are deferred (UNSUB-ALL, START-END); every WebSocket write/ping without deadline is controlled by SendTimeout only (WS-DEADLINE).",
 		NotDecided:  "promptness in seconds; goroutine dumps; third-party blocking calls.",
 		Assumptions: trust("context cancellation propagates to derived contexts", "coder/websocket honours the context of Read/Write/Ping")},
 	{ID: "C14",
